@@ -1,4 +1,4 @@
 SPECIFICATION Spec
-CONSTANTS BudgetEquiv = 4  BudgetInverse = 4
+CONSTANTS BudgetEquiv = 4  BudgetInverse = 4  BudgetDef = 4
 POSTCONDITION Accepted
 CHECK_DEADLOCK FALSE
